@@ -114,6 +114,7 @@ type Exec struct {
 	inlineDepth int
 	initGlobals bool
 	modelWrite int
+	litEscapes bool // some function literal of this function may be retained and invoked later
 }
 
 func (x *Exec) unsupported(n ast.Node, format string, a ...any) {
